@@ -194,6 +194,16 @@ def get_summary_section(protein: "MolecularContainer", conformation: str,
     return str_
 
 
+def _ph_decimals(ph_values, least: int) -> int:
+    """Number of decimals (at least `least`) needed to print the given pH
+    values of a grid without rounding them to other values."""
+    decimals = least
+    while decimals < 9 and any(
+            abs(round(ph, decimals) - ph) > 1e-9 for ph in ph_values):
+        decimals += 1
+    return decimals
+
+
 def get_folding_profile_section(
         protein: "MolecularContainer",
         conformation: str = 'AVR',
@@ -225,6 +235,7 @@ def get_folding_profile_section(
         str_ += "Could not determine folding profile\n"
     else:
         w_min, w_max, w_step = (float(x) for x in window)
+        dec2 = _ph_decimals([p[0] for p in profile], 2)
         tol = 1e-6
         for (ph, dg) in profile:
             if w_min - tol <= ph <= w_max + tol:
@@ -232,12 +243,14 @@ def get_folding_profile_section(
                 # point only if it coincides with it
                 k = round((ph - w_min) / w_step) if w_step > 0 else 0
                 if w_step <= 0 or abs(ph - (w_min + k * w_step)) < tol:
-                    str_ += "{0:>6.2f}{1:>10.2f}\n".format(ph, dg)
+                    str_ += "{0:>6.{2}f}{1:>10.2f}\n".format(ph, dg, dec2)
         str_ += "\n"
+    dec1 = _ph_decimals([p[0] for p in profile or []], 1)
     if ph_opt is None or dg_opt is None:
         str_ += "Could not determine pH optimum\n"
     else:
-        str_ += "The pH of optimum stability is {0:>4.1f}".format(ph_opt)
+        str_ += "The pH of optimum stability is {0:>4.{1}f}".format(
+            ph_opt, dec1)
         str_ += (
             " for which the free energy is {0:>6.1f} kcal/mol at "
             "298K\n".format(dg_opt)
@@ -247,13 +260,15 @@ def get_folding_profile_section(
         str_ += " is within 80 % of minimum\n"
     else:
         str_ += "The free energy is within 80 % of maximum"
-        str_ += " at pH {0:>4.1f} to {1:>4.1f}\n".format(dg_min, dg_max)
+        str_ += " at pH {0:>4.{2}f} to {1:>4.{2}f}\n".format(
+            dg_min, dg_max, dec1)
     if ph_min is None or ph_max is None:
         str_ += "Could not determine the pH-range where the free"
         str_ += " energy is negative\n\n"
     else:
         str_ += "The free energy is negative in the range"
-        str_ += " {0:>4.1f} - {1:>4.1f}\n\n".format(ph_min, ph_max)
+        str_ += " {0:>4.{2}f} - {1:>4.{2}f}\n\n".format(
+            ph_min, ph_max, dec1)
     return str_
 
 
@@ -275,9 +290,10 @@ def get_charge_profile_section(protein: "MolecularContainer",
         str_ += "Could not determine charge profile\n"
     else:
         str_ += '    pH  unfolded  folded\n'
+        dec2 = _ph_decimals([p[0] for p in profile], 2)
         for (ph, q_mod, q_pro) in profile:
-            str_ += "{ph:6.2f}{qm:10.2f}{qp:8.2f}\n".format(
-                ph=ph, qm=q_mod, qp=q_pro)
+            str_ += "{ph:6.{d}f}{qm:10.2f}{qp:8.2f}\n".format(
+                ph=ph, qm=q_mod, qp=q_pro, d=dec2)
     pi_pro, pi_mod = protein.get_pi(conformation=conformation)
     if pi_pro is None or pi_mod is None:
         str_ += "Could not determine the pI\n\n"
